@@ -1,6 +1,6 @@
 //! Translation of one Rust function: state, environment, helpers.  Expressions are in `expr.rs`, statements in `stmt.rs`.
 
-use std::collections::HashSet;
+use std::collections::{HashMap, HashSet};
 
 use quote::ToTokens;
 use syn::spanned::Spanned;
@@ -104,6 +104,16 @@ pub struct FnTr<'w> {
     pub self_mutated: Vec<String>,
     /// parameters of unsupported types (name, reason): an error if the body refers to them
     pub poisoned: Vec<(String, String)>,
+    /// generic type parameters of the enclosing `impl` (opaque Lean type variables)
+    pub subst: HashMap<String, RTy>,
+    /// instantiation of the generic parameters of the `self` struct by the `impl` header (`impl<V> HashTable<ZobristHash, V>`)
+    pub struct_subst: HashMap<String, HashMap<String, RTy>>,
+    /// statements to emit before the statement being translated (side-effecting calls: `self.map.insert(k, v)`)
+    pub pending: Vec<String>,
+    /// the one side-effecting method call that may occur in the expression being translated (head of the method chain)
+    pub effect_allowed: Option<*const syn::ExprMethodCall>,
+    /// `u64` is `UInt64` in this function
+    pub bits: bool,
 }
 
 pub const LEAN_KEYWORDS: &[&str] = &[
@@ -203,7 +213,14 @@ impl<'w> FnTr<'w> {
 
     // ---------- types ----------
 
-    pub fn resolve_type(&self, ty: &syn::Type) -> Res<RTy> { resolve_type(self.world, ty, self.target.container.ns()).map_err(|m| self.err(ty, &m)) }
+    pub fn resolve_type(&self, ty: &syn::Type) -> Res<RTy> { resolve_type_s(self.world, ty, self.target.container.ns(), &self.subst, self.bits).map_err(|m| self.err(ty, &m)) }
+
+    /// type of a field of the struct `sname` (generic parameters instantiated as in the `impl` header)
+    pub fn resolve_field_type(&self, ty: &syn::Type, sname: &str) -> Result<RTy, String> {
+        let empty = HashMap::new();
+        let sub = self.struct_subst.get(sname).unwrap_or(&empty);
+        resolve_type_s(self.world, ty, Some(sname), sub, self.bits)
+    }
 
     pub fn ty_lean(&mut self, t: &RTy) -> String {
         self.note_ty_dep(t);
@@ -214,8 +231,9 @@ impl<'w> FnTr<'w> {
         match t {
             RTy::Enum(n) => { if let Some(e) = self.world.enums.get(n) { self.deps.insert(e.module.clone()); } }
             RTy::Struct(n) => { if let Some(s) = self.world.structs.get(n) { if let Some(m) = &s.lean_module { self.deps.insert(m.clone()); } } }
-            RTy::Opt(t) | RTy::VecFn(t) | RTy::VecList(t) | RTy::Iter(t) => self.note_ty_dep(t),
-            RTy::Res(t, e) => { self.note_ty_dep(t); self.note_ty_dep(e); }
+            RTy::Opt(t) | RTy::VecFn(t) | RTy::VecList(t) | RTy::Iter(t) | RTy::VecDeque(t) => self.note_ty_dep(t),
+            RTy::Res(t, e) | RTy::HashMap(t, e) => { self.note_ty_dep(t); self.note_ty_dep(e); }
+            RTy::Tuple(ts) => for t in ts { self.note_ty_dep(t); },
             _ => {}
         }
     }
@@ -227,16 +245,50 @@ impl<'w> FnTr<'w> {
 
 /// Rust type → tracked type. `self_struct` resolves `Self`.
 pub fn resolve_type(world: &World, ty: &syn::Type, self_struct: Option<&str>) -> Result<RTy, String> {
+    resolve_type_s(world, ty, self_struct, &HashMap::new(), false)
+}
+
+/// `u64` → `UInt64` (bit-manipulating functions)
+fn to_bits(world: &World, t: RTy) -> RTy {
+    match t {
+        RTy::Int(IntTy::U64) => RTy::U64,
+        RTy::Opt(t) => RTy::Opt(Box::new(to_bits(world, *t))),
+        RTy::VecFn(t) => RTy::VecFn(Box::new(to_bits(world, *t))),
+        RTy::VecList(t) => RTy::VecList(Box::new(to_bits(world, *t))),
+        RTy::Tuple(ts) => RTy::Tuple(ts.into_iter().map(|t| to_bits(world, t)).collect()),
+        // a struct regenerated with `Int` fields (`Move`) is flattened in a bit-manipulating function (its `u64`
+        // fields become `UInt64` parameters)
+        RTy::Struct(n) if world.structs.get(&n).map(|s| !s.bits).unwrap_or(false) => RTy::Flat(n),
+        t => t,
+    }
+}
+
+/// `subst`: generic type parameters in scope; `bits`: `u64` is `UInt64`
+pub fn resolve_type_s(world: &World, ty: &syn::Type, self_struct: Option<&str>, subst: &HashMap<String, RTy>, bits: bool) -> Result<RTy, String> {
+    let t = resolve_type_i(world, ty, self_struct, subst)?;
+    Ok(if bits { to_bits(world, t) } else { t })
+}
+
+fn resolve_type_i(world: &World, ty: &syn::Type, self_struct: Option<&str>, subst: &HashMap<String, RTy>) -> Result<RTy, String> {
     match ty {
-        syn::Type::Reference(r) => resolve_type(world, &r.elem, self_struct),
-        syn::Type::Paren(p) => resolve_type(world, &p.elem, self_struct),
-        syn::Type::Group(p) => resolve_type(world, &p.elem, self_struct),
+        syn::Type::Reference(r) => resolve_type_i(world, &r.elem, self_struct, subst),
+        syn::Type::Paren(p) => resolve_type_i(world, &p.elem, self_struct, subst),
+        syn::Type::Group(p) => resolve_type_i(world, &p.elem, self_struct, subst),
         syn::Type::Tuple(t) if t.elems.is_empty() => Ok(RTy::Unit),
+        syn::Type::Tuple(t) => {
+            let mut ts = vec![];
+            for e in &t.elems { ts.push(resolve_type_i(world, e, self_struct, subst)?); }
+            Ok(RTy::Tuple(ts))
+        }
+        syn::Type::Slice(s) => Ok(RTy::VecFn(Box::new(resolve_type_i(world, &s.elem, self_struct, subst)?))),
+        // `[T; N]`: like a slice (the length is not tracked; indexing is translated bounds-checked in list mode)
+        syn::Type::Array(a) => Ok(RTy::VecFn(Box::new(resolve_type_i(world, &a.elem, self_struct, subst)?))),
         syn::Type::Path(p) if p.qself.is_none() => {
             let seg = p.path.segments.last().ok_or("empty type path")?;
             let name = seg.ident.to_string();
             match &seg.arguments {
                 syn::PathArguments::None => {
+                    if p.path.segments.len() == 1 { if let Some(t) = subst.get(&name) { return Ok(t.clone()); } }
                     if let Some(t) = IntTy::from_name(&name) { return Ok(RTy::Int(t)); }
                     match name.as_str() {
                         "bool" => return Ok(RTy::Bool),
@@ -255,15 +307,27 @@ pub fn resolve_type(world: &World, ty: &syn::Type, self_struct: Option<&str>) ->
                 syn::PathArguments::AngleBracketed(ab) => {
                     let args: Vec<&syn::Type> = ab.args.iter().filter_map(|a| if let syn::GenericArgument::Type(t) = a { Some(t) } else { None }).collect();
                     if name == "Result" && args.len() == 2 && ab.args.len() == 2 {
-                        let t = resolve_type(world, args[0], self_struct)?;
-                        let e = resolve_type(world, args[1], self_struct)?;
+                        let t = resolve_type_i(world, args[0], self_struct, subst)?;
+                        let e = resolve_type_i(world, args[1], self_struct, subst)?;
                         return Ok(RTy::Res(Box::new(t), Box::new(e)));
                     }
+                    if name == "HashMap" && (args.len() == 2 || args.len() == 3) && ab.args.len() == args.len() {
+                        // the hasher does not change what the map computes (for lawful `Hash`/`Eq` keys): only the two
+                        // hashers the engine uses are accepted
+                        if args.len() == 3 {
+                            let h = match args[2] { syn::Type::Path(hp) => hp.path.segments.last().map(|s| s.ident.to_string()), _ => None };
+                            if !matches!(h.as_deref(), Some("BuildNoHashHasher") | Some("RandomState")) { return Err("HashMap with an unknown hasher type".into()); }
+                        }
+                        let k = resolve_type_i(world, args[0], self_struct, subst)?;
+                        let v = resolve_type_i(world, args[1], self_struct, subst)?;
+                        return Ok(RTy::HashMap(Box::new(k), Box::new(v)));
+                    }
                     if args.len() != 1 || ab.args.len() != 1 { return Err("unsupported generic type".into()); }
-                    let inner = resolve_type(world, args[0], self_struct)?;
+                    let inner = resolve_type_i(world, args[0], self_struct, subst)?;
                     match name.as_str() {
                         "Option" => Ok(RTy::Opt(Box::new(inner))),
                         "Vec" => Ok(RTy::VecFn(Box::new(inner))),
+                        "VecDeque" => Ok(RTy::VecDeque(Box::new(inner))),
                         _ => Err(format!("unsupported generic type `{}`", name)),
                     }
                 }
